@@ -498,9 +498,6 @@ func loadMetadata(bs []byte) (*meta, error) {
 	offset := sectionsStart
 
 	for _, so := range sos {
-		if _, exists := knownSections[so.Name]; !exists {
-			continue
-		}
 		if so.Name == "responses" {
 			continue
 		}
@@ -511,6 +508,11 @@ func loadMetadata(bs []byte) (*meta, error) {
 			return nil, &LoadMetadataError{fmt.Errorf("bundle: section %q's length %d out-of-range.", so.Name, so.Length), FormatError, fallbackURL}
 		}
 		end := offset + so.Length
+		if _, exists := knownSections[so.Name]; !exists {
+			// Step over the unknown section.
+			offset = end
+			continue
+		}
 
 		sectionContents := bs[offset:end]
 
